@@ -770,10 +770,18 @@ class BaseEvent(BaseModel, Generic[T_EventResultType]):
     @property
     def event_bus(self) -> 'EventBus':
         """Get the EventBus that is currently processing this event"""
-        from bubus.service import EventBus, inside_handler_context
+        from bubus.service import EventBus, _current_handler_id_context, inside_handler_context
 
         if not inside_handler_context.get():
             raise AttributeError('event_bus property can only be accessed from within an event handler')
+
+        # If a handler of this event is running, it is the bus that runs that handler
+        # (the event may already have been forwarded on, so the last bus in the path can be a different one)
+        current_result = self.event_results.get(_current_handler_id_context.get() or '')
+        if current_result is not None:
+            for bus in list(EventBus.all_instances):
+                if str(id(bus)) == current_result.eventbus_id:
+                    return bus
 
         # The event_path contains all buses this event has passed through
         # The last one in the path is the one currently processing
